@@ -12,9 +12,9 @@ import (
 
 func init() {
 	register(&Rule{
-		ID: "C34",
+		ID:      "C34",
 		Explain: "Decides that the lifecycle state only moves forward under every interleaving of Join/Leave/Shutdown, by a rely/guarantee argument over shape facts: Serf.state is written only by Create (initialisation), Leave and Shutdown, always with stateLock held; every store of a constant state K is, within the same critical section, guarded against every state greater than K (so each store is >= the value it replaces; since all writers only raise, values observed earlier stay lower bounds); Shutdown returns nil before any effect when already shut down, Leave returns nil before any effect when already left, and Join's memberlist join is behind State()==alive read at its entry.",
-		Run: runC34,
+		Run:     runC34,
 		Mutants: []Mutant{
 			{Name: "left-after-shutdown", File: "serf/serf.go", Func: "func (s *Serf) Leave(", Old: "\tif s.state != SerfShutdown {\n\t\ts.state = SerfLeft\n\t}\n", New: "\ts.state = SerfLeft\n", Expect: "R2"},
 			{Name: "leave-from-left-restarts", File: "serf/serf.go", Func: "func (s *Serf) Leave(", Old: "\tcase SerfLeft:\n\t\ts.stateLock.Unlock()\n\t\treturn nil\n", New: "", Expect: "R"},
@@ -25,9 +25,9 @@ func init() {
 		},
 	})
 	register(&Rule{
-		ID: "C35",
+		ID:      "C35",
 		Explain: "Decides relay selection structurally: the relay loop is reached only when relayFactor != 0 and the node knows at least relayFactor+1 members, and iterates over kRandomMembers(relayFactor, members, filter); the filter keeps a member only on edges establishing status alive, protocol >= 5 and name != local name; the selector appends only members the filter kept, whose name equals no already selected member (exit of the dedupe scan) and only while fewer than k were selected (so at most k, distinct, never self); each relayed copy goes to the selected member's own address and name.",
-		Run: runC35,
+		Run:     runC35,
 		Mutants: []Mutant{
 			{Name: "rename-locals", Equivalent: true, Regexp: true, File: "serf/query.go", Func: "func (s *Serf) relayResponse(", Old: `\b(localName|members|relayMembers)\b`, New: "${1}Renamed"},
 			{Name: "relay-to-self", File: "serf/query.go", Func: "func (s *Serf) relayResponse(", Old: "m.Status != StatusAlive || m.ProtocolMax < 5 || m.Name == localName", New: "m.Status != StatusAlive || m.ProtocolMax < 5 || (m.Name == localName && m.Port == 0)", Expect: "R2"},
@@ -40,9 +40,9 @@ func init() {
 		},
 	})
 	register(&Rule{
-		ID: "C36",
+		ID:      "C36",
 		Explain: "Decides name-conflict resolution structurally: a reply is counted only when its payload is non-empty, its type byte is the conflict-response type and it decodes; it counts as matching only when additionally address and port equal the local node's; the self-shutdown is reached exactly on the false edge of a strict-majority test in canonical form over those two counters; the responder answers with the member it holds for the queried name and stays silent about itself.",
-		Run: runC36,
+		Run:     runC36,
 		Mutants: []Mutant{
 			{Name: "rename-locals", Equivalent: true, Regexp: true, File: "serf/serf.go", Func: "func (s *Serf) resolveNodeConflict(", Old: `\b(member|responses|matching|majority)\b`, New: "${1}Renamed"},
 			{Name: "reply-struct-reused", File: "serf/serf.go", Func: "func (s *Serf) resolveNodeConflict(", Old: "\t\tvar member Member\n", New: "", Old2: "\tvar responses, matching int\n", New2: "\tvar responses, matching int\n\tvar member Member\n", Expect: "R4"},
